@@ -353,8 +353,11 @@ def checkGo (model : Bool) (wake : Bool) (sc : Scn) (mode : String) (obs : Strin
   | some cs =>
     let hang := (field obs "hang").getD "?"
     let stuck := (field obs "stuck").getD "?"
-    if (field obs "postpanic").isSome then some s!"the queue panicked after the scenario: {(field obs "postpanic").getD ""}"
-    else if wake && hang ≠ "-" then some s!"a call did not return although its context ended long ago: hang={hang}"
+    let wedged := (field obs "wedged").getD "-"
+    if wedged ≠ "-" then
+      some s!"the queue is wedged (leaked lock?): after the scenario's calls, some of which returned a context error, Len()/AsSlice()/Enqueue/Dequeue no longer return, ignoring their contexts (wedged={wedged} hang={(field obs "hang").getD "-"})"
+    else if (field obs "postpanic").isSome then some s!"the queue panicked after the scenario: {(field obs "postpanic").getD ""}"
+    else if wake && hang ≠ "-" then some s!"a call did not return although its context ended long ago (the bound): hang={hang}"
     else if wake && stuck ≠ "-" then some s!"a blocked call stayed blocked although it could proceed (lost wake-up): stuck={stuck}"
     else
     match cs.find? (fun x => x.c.ret = some .err) with
